@@ -605,7 +605,7 @@ type stmt =
 | Raise
 and handlers =
 | HNil
-| HCons of nref list * bool * nat * nat * stmt * handlers
+| HCons of bool * nat * nat * stmt * handlers
 
 type lstat =
 | LRef of nat * nat
@@ -997,8 +997,8 @@ let rec visit fx s st =
 and visit_h fx hs n0 e st =
   match hs with
   | HNil -> (e, st)
-  | HCons (pat, hastg, tl0, te, hb, rest) ->
-    let st1 = refs pat (set_cur (Some e) st) in
+  | HCons (hastg, tl0, te, hb, rest) ->
+    let st1 = set_cur (Some e) st in
     let e2 = st1.nb in
     let st4 = nextblock (add_edge_o st1.cur e2 (newblock st1)) in
     let st5 = if hastg then v_asg tl0 te st4 else st4 in
@@ -1105,7 +1105,7 @@ let rec wf inl = function
 
 and wf_h inl = function
 | HNil -> true
-| HCons (_, _, _, _, hb, rest) -> (&&) (wf inl hb) (wf_h inl rest)
+| HCons (_, _, _, hb, rest) -> (&&) (wf inl hb) (wf_h inl rest)
 
 (** val run_cfg : bool -> nat -> nref list -> stmt -> bst * result option **)
 
